@@ -24,9 +24,9 @@ struct DiffC {
   i64 off = 0, ws = 0, we = 0;
   std::vector<i64> dnum;   // diffusion coefficient per interval = dnum/8 in [1/8, 8]
   i64 start = 0, end = 1;  // boundary values /4
-  i64 scale_num = 2, scale_den = 1;
+  i64 scale_num = 2, scale_den = 1, scale_exp = 0;  // scale factor = scale_num/scale_den * 2^scale_exp
   template <class A>
-  void io(A &a) { a("gaps", gaps); a("off", off); a("ws", ws); a("we", we); a("dnum", dnum); a("start", start); a("end", end); a("scale_num", scale_num); a("scale_den", scale_den); }
+  void io(A &a) { a("gaps", gaps); a("off", off); a("ws", ws); a("we", we); a("dnum", dnum); a("start", start); a("end", end); a("scale_num", scale_num); a("scale_den", scale_den); a("scale_exp", scale_exp); }
 };
 static void check_diffusion(const DiffC &c, vf::Obs &o) {
   std::vector<double> g{(double)c.off / 8.0};
@@ -36,7 +36,8 @@ static void check_diffusion(const DiffC &c, vf::Obs &o) {
   bool whole = ws == 0 && we == n;
   int nint = we - ws - 1;
   std::vector<double> d(nint), dc(nint), d1(nint, 1.0);
-  double sc = (double)std::max<i64>(1, c.scale_num) / (double)std::max<i64>(1, c.scale_den);
+  double sc = std::ldexp((double)std::max<i64>(1, c.scale_num) / (double)std::max<i64>(1, c.scale_den), (int)std::max<i64>(-200, std::min<i64>(200, c.scale_exp)));
+  if (c.scale_exp != 0) o.cls("scale:extreme");
   for (int i = 0; i < nint; i++) { i64 v = c.dnum.empty() ? 8 : c.dnum[(size_t)i % c.dnum.size()]; d[i] = (double)std::min<i64>(64, std::max<i64>(1, v)) / 8.0; dc[i] = d[i] * sc; }
   double start = (double)c.start / 4.0, end = (double)c.end / 4.0;
   std::vector<double> xs;
@@ -163,6 +164,7 @@ int main(int argc, char **argv) {
     for (int i = 0; i + 1 < n; i++) c.dnum.push_back(constant ? cv : pick(1, 64));
     c.start = pick(-40, 40); c.end = pick(-40, 40);
     if (chance(60)) { c.scale_num = (i64)1 << pick(0, 6); c.scale_den = (i64)1 << pick(0, 6); } else { c.scale_num = pick(1, 97); c.scale_den = pick(1, 13); }
+    if (chance(25)) c.scale_exp = chance(50) ? pick(-160, -20) : pick(20, 160);  // any positive constant: also 1e-48 .. 1e48
     return c; }), check_diffusion);
   vf::add_sub<PotC>("spline-potential", 30, rc::gen::exec([] {
     PotC c;
